@@ -247,22 +247,32 @@ Lemma readall_good_full D s u : Inv D s u ->
     exists x, u_taken u' = u_taken u ++ x /\ u_data u = x ++ u_data u' /\
       match o with
       | Exn e => (e = ClientDisconnected /\ pos s < limit s) \/
-                 (e = RequestEntityTooLarge /\ is_max s = true /\ limit s <= pos s)
-      | OkB d => d = x /\ (is_max s = false -> pos s' = limit s')
+                 (e = RequestEntityTooLarge /\ is_max s = true /\ pos s' = limit s')
+      | OkB d => d = x /\ (is_max s = false -> pos s' = limit s') /\ (is_max s = true -> pos s' < limit s')
       | _ => False
       end
   end.
 Proof.
-  intro HI. unfold readall. rewrite is_exhausted_eq. destruct (limit s <=? pos s) eqn:Hex.
+  intro HI. unfold readall, readall_g, readall_post. rewrite is_exhausted_eq. destruct (limit s <=? pos s) eqn:Hex.
   - unfold on_exhausted_gen. destruct HI as [Hd [Hp Hl]].
     destruct (is_max s) eqn:Hm; (spl; [unfold Inv; auto|apply same_cfg_refl|lia|]);
       exists []; rewrite !app_nil_r; cbn [app]; spl; auto.
     + right. spl; auto. lia.
     + intros _. lia.
+    + intro Hc. discriminate.
   - pose proof (readall_loop_good D (S (length (u_data u))) s u [] HI (Nat.lt_succ_diag_r _)) as H.
     destruct (readall_loop (S (length (u_data u))) s u []) as [[o s1] u1].
-    destruct H as [HI1 [Hcfg [Hcalls [x [Ht [Hd Ho]]]]]]. spl; auto.
-    exists x. spl; auto. destruct o as [d| | |e]; auto. left. split; [exact Ho|lia].
+    destruct H as [HI1 [Hcfg [Hcalls [x [Ht [Hd Ho]]]]]].
+    destruct o as [d| | |e]; try contradiction.
+    + destruct Ho as [Hdx Hnm]. cbn [app] in Hdx. destruct Hcfg as [Hlim [Hmax Hri]].
+      rewrite is_exhausted_eq. unfold on_exhausted_gen. destruct HI1 as [HD1 [Hp1 Hl1]].
+      destruct (is_max s1 && (limit s1 <=? pos s1)) eqn:Hpost.
+      * apply andb_prop in Hpost. destruct Hpost as [Hm1 He1]. rewrite Hm1.
+        spl; auto; [unfold Inv; auto|unfold same_cfg; auto|]. exists x. spl; auto.
+        right. spl; auto; [congruence|lia].
+      * spl; auto; [unfold Inv; auto|unfold same_cfg; auto|]. exists x. spl; auto.
+        all: intro Hm; try (apply Hnm; exact Hm); rewrite Hmax, Hm in Hpost; cbn [andb] in Hpost; lia.
+    + spl; auto. exists x. spl; auto. left. split; [exact Ho|lia].
 Qed.
 
 Lemma readall_good D s u : Inv D s u -> good D s u (readall s u).
@@ -508,12 +518,12 @@ Lemma no_silent_truncation s u : wf s u -> is_max s = false ->
 Proof.
   intros Hwf Hm. pose proof (wf_Inv s u Hwf) as HI. set (D := u_taken u ++ u_data u) in HI. spl.
   - intros d s' u' H. pose proof (readall_good_full D s u HI) as G. rewrite H in G.
-    destruct G as [_ [_ [_ [x [_ [_ [_ G]]]]]]]. apply G. exact Hm.
+    destruct G as [_ [_ [_ [x [_ [_ [_ [G _]]]]]]]]. apply G. exact Hm.
   - intros d s' u' H. unfold exhaust in H. rewrite is_exhausted_eq in H.
     destruct (limit s <=? pos s) eqn:Hex; cbn [negb] in H.
     + inversion H; subst. destruct Hwf. lia.
     + pose proof (readall_good_full D s u HI) as G. rewrite H in G.
-      destruct G as [_ [_ [_ [x [_ [_ [_ G]]]]]]]. apply G. exact Hm.
+      destruct G as [_ [_ [_ [x [_ [_ [_ [G _]]]]]]]]. apply G. exact Hm.
   - intros l s' u' H. pose proof (readlines_good_full D None s u HI) as G. rewrite H in G.
     destruct G as [_ [_ [x [_ [_ [_ G]]]]]]. apply G; auto.
   - intros s' u' H. pose proof (readline_good_full D None s u HI) as G. rewrite H in G.
@@ -532,7 +542,7 @@ Proof.
   destruct (readall (ls_init lim false) (und_init D sched ri)) as [[o s1] u1]. cbn [fst].
   destruct G as [[HD [Hp _]] [[Hlim _] [_ [x [_ [_ G]]]]]]. cbn [ls_init limit is_max pos] in *.
   destruct o as [d| | |e]; try contradiction.
-  - destruct G as [_ G]. specialize (G eq_refl).
+  - destruct G as [_ [G _]]. specialize (G eq_refl).
     assert (lenN (u_taken u1) <= lenN D) by (rewrite <- HD, lenN_app; lia). lia.
   - destruct G as [[G _]|[_ [G _]]]; [congruence|discriminate].
 Qed.
@@ -600,23 +610,40 @@ Proof.
     + apply und_read_err in Hr. destruct Hr as [_ [_ [_ [_ Hr]]]]. congruence.
 Qed.
 
-Lemma readall_delivers D lim m sched ri : benign sched = true ->
-  (m = false /\ lim <= lenN D) \/ (m = true /\ 0 < lim) ->
-  fst (fst (readall (ls_init lim m) (und_init D sched ri))) = OkB (takeN lim D).
+Lemma readall_benign_outcome D lim m sched ri : benign sched = true -> (m = true \/ lim <= lenN D) ->
+  fst (fst (readall (ls_init lim m) (und_init D sched ri)))
+  = if m && (lim <=? lenN D) then Exn RequestEntityTooLarge else OkB (takeN lim D).
 Proof.
-  intros Hb Hor. unfold readall. rewrite is_exhausted_eq. cbn [ls_init limit pos is_max].
+  intros Hb Hor. unfold readall, readall_g, readall_post. rewrite is_exhausted_eq. cbn [ls_init limit pos is_max].
   destruct (lim <=? 0) eqn:H0.
-  - destruct Hor as [[Hm _]|[_ Hl]]; [|lia]. subst m. cbn [on_exhausted_gen fst].
-    replace lim with 0 by lia. reflexivity.
-  - rewrite (readall_loop_benign D); cbn [und_init u_sched u_data ls_init limit pos is_max app]; auto.
-    + rewrite N.sub_0_r. reflexivity.
-    + apply init_Inv.
-    + destruct Hor as [[_ Hl]|[Hm _]]; auto.
+  - assert (lim = 0) by lia. subst lim. unfold on_exhausted_gen. replace (0 <=? lenN D) with true by lia.
+    destruct m; reflexivity.
+  - pose proof (readall_loop_benign D (S (length D)) (ls_init lim m) (und_init D sched ri) []) as HB.
+    pose proof (readall_loop_good D (S (length D)) (ls_init lim m) (und_init D sched ri) [] (init_Inv D lim m sched ri)) as HG.
+    specialize (HB (init_Inv D lim m sched ri) Hb Hor (Nat.lt_succ_diag_r _)).
+    specialize (HG (Nat.lt_succ_diag_r _)).
+    change (u_data (und_init D sched ri)) with D.
+    destruct (readall_loop (S (length D)) (ls_init lim m) (und_init D sched ri) []) as [[o s1] u1].
+    cbn [und_init u_sched u_data u_taken ls_init limit pos is_max app fst] in HB, HG.
+    rewrite N.sub_0_r in HB. rewrite HB in *.
+    destruct HG as [[HD1 [Hp1 Hl1]] [[Hlim [Hmax _]] [_ [x [Ht [_ [Hx _]]]]]]].
+    cbn [app ls_init limit is_max] in *. rewrite <- Hx in Ht. rewrite is_exhausted_eq, Hmax, Hlim, Hp1, Ht, lenN_takeN.
+    replace (lim <=? N.min lim (lenN D)) with (lim <=? lenN D) by lia.
+    unfold on_exhausted_gen. destruct m; cbn [andb fst]; [|reflexivity].
+    destruct (lim <=? lenN D); reflexivity.
 Qed.
 
-(* the known finding: an unbounded read on a limit-is-maximum stream over a longer body *)
+Lemma readall_delivers D lim sched ri : benign sched = true -> lim <= lenN D ->
+  fst (fst (readall (ls_init lim false) (und_init D sched ri))) = OkB (takeN lim D).
+Proof. intros Hb Hl. rewrite readall_benign_outcome by auto. reflexivity. Qed.
+
+Lemma max_body_too_large D lim sched ri : benign sched = true -> lim <= lenN D ->
+  fst (fst (readall (ls_init lim true) (und_init D sched ri))) = Exn RequestEntityTooLarge.
+Proof. intros Hb Hl. rewrite readall_benign_outcome by auto. cbn [andb]. replace (lim <=? lenN D) with true by lia. reflexivity. Qed.
+
+(* the repaired defect (afe6d66): readall without the report of a reached maximum *)
 Lemma max_readall_truncates_witness :
-  readall (ls_init 2 true) (und_init [97; 98; 99] [] true)
+  readall_unrepaired (ls_init 2 true) (und_init [97; 98; 99] [] true)
   = (OkB [97; 98], {| pos := 2; limit := 2; is_max := true |},
      {| u_data := [99]; u_taken := [97; 98]; u_sched := []; u_has_readinto := true; u_calls := 1 |}).
 Proof. vm_compute. reflexivity. Qed.
@@ -735,8 +762,9 @@ Proof.
          try (intros mx' Hmx'; inversion Hmx'; subst; lia)).
 Qed.
 
-Lemma max_body_fits D lim sched ri : benign sched = true -> 0 < lim -> lenN D <= lim ->
+Lemma max_body_fits D lim sched ri : benign sched = true -> lenN D < lim ->
   fst (fst (readall (ls_init lim true) (und_init D sched ri))) = OkB D.
 Proof.
-  intros Hb H0 Hle. rewrite readall_delivers by auto. f_equal. apply takeN_all. exact Hle.
+  intros Hb Hlt. rewrite readall_benign_outcome by auto. cbn [andb]. replace (lim <=? lenN D) with false by lia.
+  f_equal. apply takeN_all. lia.
 Qed.
